@@ -302,6 +302,14 @@ type loader struct {
 }
 
 func (tl *loader) load(keys ...string) {
+	tl.reload(keys, nil)
+}
+
+// reload loads keys and drops dropKeys. The drops are published together with
+// the last batch of loaded shards, so that a concurrent search never observes
+// a repository whose replaced shards are already gone while their
+// replacements are not loaded yet.
+func (tl *loader) reload(keys, dropKeys []string) {
 	// This is called with all keys on startup, so once this function has
 	// finished running shardedSearcher will be ready.
 	defer tl.ss.markReady()
@@ -309,6 +317,7 @@ func (tl *loader) load(keys ...string) {
 	if len(keys) == 0 {
 		// If there's nothing to load, we exit early here, but we want to mark
 		// ourselves as ready.
+		tl.drop(dropKeys...)
 		return
 	}
 
@@ -361,6 +370,14 @@ func (tl *loader) load(keys ...string) {
 	}
 
 	wg.Wait()
+
+	mu.Lock()
+	for _, key := range dropKeys {
+		if _, ok := loadedShards[key]; !ok {
+			loadedShards[key] = nil
+		}
+	}
+	mu.Unlock()
 
 	publishLoaded()
 }
